@@ -255,13 +255,20 @@ const preludeDecls = `(set-option :produce-models true)
 (define-fun validVal ((v Val)) Bool (and (=> ((_ is VSlice) v) (validSlice (vslice v))) (=> ((_ is VMap) v) (<= 0 (vmap v))) (=> ((_ is VBig) v) (< 0 (vbig v))) (=> ((_ is VInt) v) (and (<= (- 9223372036854775808) (vint v)) (<= (vint v) 9223372036854775807))) (=> ((_ is VOther) v) (>= (vtype v) 100))))
 (define-fun jsonVal ((v Val)) Bool (and (validVal v) (not ((_ is VOther) v)) (=> ((_ is VBig) v) (< 0 (vbig v)))))
 ; rune decoding of strings (abstract UTF-8 decoder, DESIGN §2.7)
+(declare-fun pubval (Int) Int)
 (declare-fun rwidth (Str Int) Int)
 (declare-fun rdecode (Str Int) Int)
+(declare-fun rcount (Str) Int)
+(declare-fun ridx (Str Int) Int)
 `
 
 // preludeAxioms are quantified axioms of the model; each is included in a query only if one
 // of the function symbols in its patterns occurs in the query (relevance filter).
 var preludeAxioms = []string{
+	// decomposition of a string into decode steps: ridx(s,k) is the byte index of the k-th step
+	`(assert (forall ((s Str)) (! (and (<= 0 (rcount s)) (<= (rcount s) (slen s)) (= (ridx s 0) 0) (= (ridx s (rcount s)) (slen s)) (=> (< 0 (slen s)) (< 0 (rcount s)))) :pattern ((rcount s)))))`,
+	`(assert (forall ((s Str) (k Int)) (! (=> (and (<= 0 k) (< k (rcount s))) (and (<= 0 (ridx s k)) (< (ridx s k) (slen s)) (= (ridx s (+ k 1)) (+ (ridx s k) (rwidth s (ridx s k)))))) :pattern ((ridx s k)))))`,
+	`(assert (forall ((s Str) (k Int) (j Int)) (! (=> (and (<= 0 k) (< k j) (<= j (rcount s))) (< (ridx s k) (ridx s j))) :pattern ((ridx s k) (ridx s j)))))`,
 	`(assert (forall ((s Str)) (! (and (<= 0 (slen s)) (< (slen s) 72057594037927936)) :pattern ((slen s)))))`,
 	`(assert (forall ((s Str) (i Int)) (! (and (<= 0 (sat s i)) (<= (sat s i) 255)) :pattern ((sat s i)))))`,
 	`(assert (forall ((s Str) (i Int) (j Int)) (! (=> (and (<= 0 i) (<= i j) (<= j (slen s))) (= (slen (ssub s i j)) (- j i))) :pattern ((ssub s i j)))))`,
